@@ -13,6 +13,7 @@ inductive Op where
   | multi (ks : List Key)
   | scan (p : Bytes)
   | gapScan (p : Bytes)
+  | succ (p : Bytes)
 
 def parseOp (t : String) : Option Op :=
   match t.splitOn ":" with
@@ -29,6 +30,7 @@ def parseOp (t : String) : Option Op :=
   | ["M", ks] => if ks.isEmpty then some (.multi []) else do pure (.multi (← (ks.splitOn ",").mapM hexBytes))
   | ["S", p] => do pure (.scan (← hexBytes p))
   | ["X", p] => do pure (.gapScan (← hexBytes p))
+  | ["U", p] => do pure (.succ (← hexBytes p))
   | _ => none
 
 def parseCase (line : String) : Option (List Op) :=
@@ -41,10 +43,13 @@ def showOpt : Option Val → String
   | none => "_"
   | some v => showHex v
 
-def sortKV (es : List (Key × Val)) : List (Key × Val) := es.mergeSort (fun a b => lexLe a.1 b.1)
+def sortKV (es : List (Key × Val)) : List (Key × Val) := isort (fun a b => lexLe a.1 b.1) es
 
 def showScan (es : List (Key × Val)) (rev : Nat) : String :=
   "S" ++ ",".intercalate (es.map fun kv => showHex kv.1 ++ ":" ++ showHex kv.2) ++ "@" ++ toString rev
+
+def showSucc (p : Bytes) : String :=
+  "U" ++ (match prefixSuccessor p with | none => "_" | some u => showHex u)
 
 def showFlags (fs : List Bool) : String :=
   if fs.isEmpty then "-" else String.ofList (fs.map fun b => if b then '1' else '0')
@@ -127,6 +132,7 @@ def stepOp {σ} (E : Engine σ) (r : Run σ) : Op → Option (Run σ)
       let r ← flush E r
       let s := E.scan r.st p
       pure { r with reads := r.reads ++ [showScan s.1 s.2] }
+  | .succ p => some { r with reads := r.reads ++ [showSucc p] }
   | .gapScan p =>
       match E.gap r.st p r.pending with
       | none => none
@@ -196,6 +202,9 @@ def tagOp (t : TagSt) : Op → TagSt
     let t := addTag (endChunk t) "scan"
     let t := if p.isEmpty then addTag t "scan-empty-prefix" else t
     if p.getLast? == some 0xFF then addTag t "scan-ff-prefix" else t
+  | .succ p => addTag t (match prefixSuccessor p with
+      | none => "succ-none"
+      | some _ => if p.getLast? == some 0xFF then "succ-carry" else "succ-plain")
   | .gapScan p =>
     let t := addTag t (if t.chunkLen == 0 then "gap-scan-idle" else "gap-scan-with-apply")
     let t := if p.isEmpty then addTag t "scan-empty-prefix" else t
@@ -227,6 +236,14 @@ structure RefRun where
   lastInChunk : Option Nat := none
   unordered : Bool := false
   hasGap : Bool := false
+  /-- store / last index at the last flush point (what a gap scan may still see) -/
+  fStore : List (Key × Val) := []
+  fLast : Nat := 0
+  /-- per scan op: (gap?, prefix, entries before the pending chunk, revision before, entries after, revision after) -/
+  scans : List (Bool × Bytes × String × Nat × String × Nat) := []
+
+def scanBody (es : List (Key × Val)) : String :=
+  ",".intercalate ((sortKV es).map fun kv => showHex kv.1 ++ ":" ++ showHex kv.2)
 
 def refOp (emptyPrefixWild : Bool) (r : RefRun) : Op → RefRun
   | .cmd c =>
@@ -240,15 +257,23 @@ def refOp (emptyPrefixWild : Bool) (r : RefRun) : Op → RefRun
       if aget r.store k == e then { r with store := aset r.store k (some v), flags := r.flags ++ [true] }
       else { r with flags := r.flags ++ [false] }
   | .index n => { r with next := n }
-  | .cut => { r with lastInChunk := none }
-  | .get k => { r with lastInChunk := none, reads := r.reads ++ ["G" ++ showOpt (aget r.store k)] }
-  | .multi ks => { r with lastInChunk := none,
+  | .cut => { r with lastInChunk := none, fStore := r.store, fLast := r.last.1 }
+  | .get k => { r with lastInChunk := none, fStore := r.store, fLast := r.last.1,
+                       reads := r.reads ++ ["G" ++ showOpt (aget r.store k)] }
+  | .multi ks => { r with lastInChunk := none, fStore := r.store, fLast := r.last.1,
                           reads := r.reads ++ ["M" ++ ",".intercalate (ks.map fun k => showOpt (aget r.store k))] }
   | .scan p =>
-    let es := sortKV (r.store.filter fun kv => startsWith kv.1 p)
-    { r with lastInChunk := none,
-             reads := r.reads ++ [if emptyPrefixWild && p.isEmpty then "S*" else showScan es r.last.1] }
-  | .gapScan _ => { r with hasGap := true, lastInChunk := none }
+    let es := scanBody (r.store.filter fun kv => startsWith kv.1 p)
+    { r with lastInChunk := none, fStore := r.store, fLast := r.last.1,
+             scans := r.scans ++ [(false, p, es, r.last.1, es, r.last.1)],
+             reads := r.reads ++ [if emptyPrefixWild && p.isEmpty then "S*" else "S" ++ es ++ "@" ++ toString r.last.1] }
+  | .succ p => { r with reads := r.reads ++ [showSucc p] }
+  | .gapScan p =>
+    let e0 := scanBody (r.fStore.filter fun kv => startsWith kv.1 p)
+    let e1 := scanBody (r.store.filter fun kv => startsWith kv.1 p)
+    { r with hasGap := true, lastInChunk := none, fStore := r.store, fLast := r.last.1,
+             scans := r.scans ++ [(true, p, e0, r.fLast, e1, r.last.1)],
+             reads := r.reads ++ ["X"] }
 
 def refSection (ops : List Op) (wild : Bool) : RefRun × String :=
   let r := ops.foldl (refOp wild) {}
@@ -262,7 +287,7 @@ def wildEmptyScans (ops : List Op) (sec : String) : String :=
   | none => sec
   | some rd =>
     if rd == "-" then sec else
-    let readOps := ops.filter fun | .get _ | .multi _ | .scan _ | .gapScan _ => true | _ => false
+    let readOps := ops.filter fun | .get _ | .multi _ | .scan _ | .gapScan _ | .succ _ => true | _ => false
     let items := rd.splitOn "/"
     if items.length != readOps.length then sec else
     let items' := (items.zip readOps).map fun (it, op) =>
@@ -299,6 +324,54 @@ def monitorC22 (ops : List Op) (out : String) : String :=
     else if r' != expected then "bad " ++ firstDiff "rocks" r' expected
     else "ok"
 
+/-- scan items (`S…@rev`) of an implementation section, in op order, paired with the reference expectations -/
+def scanItems (ops : List Op) (sec : String) : Option (List String) :=
+  match lookup (fields sec) "reads" with
+  | none => none
+  | some rd =>
+    let readOps := ops.filter fun | .get _ | .multi _ | .scan _ | .gapScan _ | .succ _ => true | _ => false
+    let items := if rd == "-" then [] else rd.splitOn "/"
+    if items.length != readOps.length then none else
+    some ((items.zip readOps).filterMap fun (it, op) =>
+      match op with
+      | .scan _ => some it
+      | .gapScan _ => some it
+      | _ => none)
+
+/-- C25 for one scan result of one engine.
+    sequential scan: exactly the prefixed bindings of the reference store, revision = last applied index;
+    scan racing with an apply: the data must never be behind the revision (everything applied up to the
+    reported revision is in the entries); data ahead of the revision is accepted (see `resync_converges`). -/
+def judgeScan (eng : String) (item : String) (e : Bool × Bytes × String × Nat × String × Nat) : Option String :=
+  let (gap, p, e0, r0, e1, r1) := e
+  let mk (es : String) (r : Nat) := "S" ++ es ++ "@" ++ toString r
+  if !gap then
+    if item == mk e1 r1 then none
+    else if p.isEmpty && item == mk "" r1 && e1 != "" then some (eng ++ "-empty-prefix-scan-returns-nothing")
+    else some (eng ++ "-scan-wrong")
+  else
+    if item == mk e0 r0 || item == mk e1 r1 || item == mk e1 r0 then none
+    else if item == mk e0 r1 then some (eng ++ "-scan-data-behind-revision")
+    else if p.isEmpty && (item == mk "" r0 || item == mk "" r1) then some (eng ++ "-empty-prefix-scan-returns-nothing")
+    else some (eng ++ "-scan-wrong")
+
+def monitorC25 (ops : List Op) (out : String) : String :=
+  match splitImpl out with
+  | none => "bad output-format"
+  | some (f, r) =>
+    let (rr, _) := refSection ops false
+    if rr.unordered then "skip" else
+    if rr.scans.isEmpty then "skip" else
+    match scanItems ops f, scanItems ops r with
+    | some fi, some ri =>
+      if fi.length != rr.scans.length || ri.length != rr.scans.length then "bad output-format" else
+      let fbad := (fi.zip rr.scans).filterMap fun (it, e) => judgeScan "file" it e
+      let rbad := (ri.zip rr.scans).filterMap fun (it, e) => judgeScan "rocks" it e
+      match fbad ++ rbad with
+      | [] => "ok"
+      | b :: _ => "bad " ++ b
+    | _, _ => "bad output-format"
+
 def monitorLine (prop : String) (line : String) : String :=
   match line.splitOn "\t" with
   | [case, out] =>
@@ -309,8 +382,6 @@ def monitorLine (prop : String) (line : String) : String :=
       else if prop == "C25" then monitorC25 ops out
       else "skip"
   | _ => "bad-line"
-where
-  monitorC25 (_ops : List Op) (_out : String) : String := "skip"
 
 def main (args : List String) : IO UInt32 := do
   let stdin ← IO.getStdin
